@@ -167,6 +167,14 @@ def pymod(a, d):
 # path exploration
 
 
+def local(frame, name):
+    """a sidecar's read of a local variable of the function under contract: if the code no longer has it, the contract does not
+    apply to this source (outside the verified subset, exit 2) - not a crash and not a violation"""
+    if name not in frame.locals:
+        raise Unsupported("the function under contract has no local variable %r at this point (sidecar invariants are stated over it)" % name)
+    return frame.locals[name]
+
+
 class Obligation:
     def __init__(self, name, hyps, goal, note="", insts=None):
         self.name, self.hyps, self.goal, self.note = name, list(hyps), goal, note
